@@ -187,12 +187,22 @@ fn judge(allow: Option<&[&str]>, peer: [u8; 4], path: &str, r: &Result<Resp, Str
     Ok("200")
 }
 
+static THOROUGH: std::sync::atomic::AtomicBool = std::sync::atomic::AtomicBool::new(false);
 fn allowlists() -> Vec<Vec<&'static str>> {
+    let thorough = THOROUGH.load(std::sync::atomic::Ordering::SeqCst);
     let mut v: Vec<Vec<&'static str>> = Vec::new();
     for i in 0..ENTRIES.len() {
         v.push(vec![ENTRIES[i]]);
-        for j in i + 1..ENTRIES.len() {
-            v.push(vec![ENTRIES[i], ENTRIES[j]]);
+        for j in 0..ENTRIES.len() {
+            // ordered pairs in the thorough tier (the order in which entries are added must not matter), unordered in the quick one
+            if j > i || (thorough && j != i) {
+                v.push(vec![ENTRIES[i], ENTRIES[j]]);
+            }
+            for k in j + 1..ENTRIES.len() {
+                if thorough && j > i {
+                    v.push(vec![ENTRIES[i], ENTRIES[j], ENTRIES[k]]);
+                }
+            }
         }
     }
     v
@@ -267,6 +277,11 @@ fn disturbance_part(ctx: &Ctx, res: &mut PartResult) {
         seqs.push(vec![a]);
         for b in 0..DISTS.len() {
             seqs.push(vec![a, b]);
+            if THOROUGH.load(std::sync::atomic::Ordering::SeqCst) {
+                for c in 0..DISTS.len() {
+                    seqs.push(vec![a, b, c]);
+                }
+            }
         }
     }
     for allow in [None, Some(vec!["127.0.0.0/30"])] {
@@ -622,6 +637,7 @@ fn ipv6_part(ctx: &Ctx, res: &mut PartResult) {
 }
 
 fn parts(ctx: &Ctx) -> Vec<PartSpec> {
+    THOROUGH.store(!ctx.quick(), std::sync::atomic::Ordering::SeqCst);
     let b = if ctx.quick() { 150.0 } else { 1800.0 };
     let n = allowlists().len();
     let mut v = vec![PartSpec::new("matrix-no-allowlist", json!({"lists": "none"})).budget(b)];
@@ -639,6 +655,7 @@ fn parts(ctx: &Ctx) -> Vec<PartSpec> {
 }
 
 fn run(ctx: &Ctx, spec: &PartSpec) -> PartResult {
+    THOROUGH.store(!ctx.quick(), std::sync::atomic::Ordering::SeqCst);
     let mut res = PartResult::new(&spec.name, "");
     vseq::quiet_panics();
     if spec.arg["ipv6"].as_bool() == Some(true) {
@@ -662,7 +679,7 @@ fn main() {
     driver::main(CheckDef {
         prop: "C18",
         level: "fault_enumeration",
-        rule: "allowlists = none and all subsets of size 1-2 of {127.0.0.1 (plain address), 127.0.0.2/32, 127.0.0.0/30, 127.0.1.0/24, 10.0.0.0/8, ::1/128} x peers bound to {127.0.0.1,.2,.3,.4, 127.0.1.0, 127.0.1.255, 127.0.2.0, 127.1.1.1} x paths {/, /metrics, /health, /healthz}, one request each against a fresh real exporter (builder.build() on a tokio runtime); oracle: independent CIDR arithmetic; inside => 200 and the body parses (strict parser) to exactly the recorded state, /health => OK; outside => 403 with an empty body; plus all disturbance sequences of length <= 2 over {garbage bytes, half a request then idle, connect + RST, 8 concurrent scrapers, 4 refused scrapes} each followed by probes that must be served; plus an exporter listening on [::1] scraped from ::1 under no allowlist and all subsets of size 1-2 of {::1, ::1/128, ::/64, ::/8, fe80::/10, 2001:db8::/32, 127.0.0.1, 0.0.0.0/8} (an IPv4 network never admits an IPv6 peer); plus all sequences (depth <= 3 quick / 5 thorough) over {record, scrape, wait for the exporter's periodic upkeep task (15 ms period)}: every scrape reports exactly the samples recorded so far; distinct_nontrivial = distinct (allowlist, peer, outcome) / (sequence, outcome) cases",
+        rule: "allowlists = none and all subsets of size 1-2 (thorough: ordered pairs and subsets of size 3) of {127.0.0.1 (plain address), 127.0.0.2/32, 127.0.0.0/30, 127.0.1.0/24, 10.0.0.0/8, ::1/128} x peers bound to {127.0.0.1,.2,.3,.4, 127.0.1.0, 127.0.1.255, 127.0.2.0, 127.1.1.1} x paths {/, /metrics, /health, /healthz}, one request each against a fresh real exporter (builder.build() on a tokio runtime); oracle: independent CIDR arithmetic; inside => 200 and the body parses (strict parser) to exactly the recorded state, /health => OK; outside => 403 with an empty body; plus all disturbance sequences of length <= 2 (thorough 3) over {garbage bytes, half a request then idle, connect + RST, 8 concurrent scrapers, 4 refused scrapes} each followed by probes that must be served; plus an exporter listening on [::1] scraped from ::1 under no allowlist and all subsets of size 1-2 of {::1, ::1/128, ::/64, ::/8, fe80::/10, 2001:db8::/32, 127.0.0.1, 0.0.0.0/8} (an IPv4 network never admits an IPv6 peer); plus all sequences (depth <= 3 quick / 5 thorough) over {record, scrape, wait for the exporter's periodic upkeep task (15 ms period)}: every scrape reports exactly the samples recorded so far; distinct_nontrivial = distinct (allowlist, peer, outcome) / (sequence, outcome) cases",
         assumptions: &["tokio / hyper task scheduling runs free: request histories are enumerated, not the server's internal interleavings", "a response is awaited 3 s and then once more for 30 s before 'not served' is reported"],
         parts,
         run,
